@@ -18,7 +18,7 @@ impl ReferenceIdRequest {
             return None;
         }
 
-        if payload_len + offset > 512 {
+        if payload_len as u32 + offset as u32 > 512 {
             return None;
         }
 
